@@ -137,7 +137,7 @@ func runManual(ops []bop) string {
 }
 
 var rawFragments = []string{"", "a", "‹a›", "‹×›", "x‹b›y", "‹a›\n‹b›", "\n", "‹a› ", "é", "‹?›‹c›"}
-var bufPayloads = []string{"", "a", " ", "\n", "\r\n", "a\nb", "‹", "›", "×", "\xe2", "\xe2\x80", "\x80\xb9", "\xb9", "\xba", "é", "\xc3", "‹×›", "ab‹c›"}
+var bufPayloads = []string{"", "a", " ", "\n", "\r\n", "‸", "※", "a\nb", "‹", "›", "×", "\xe2", "\xe2\x80", "\x80\xb9", "\xb9", "\xba", "é", "\xc3", "‹×›", "ab‹c›"}
 var bufBytes = []int64{'a', '\n', ' ', 0xe2, 0x80, 0xb9, 0xba, 0xc3, '?'}
 var bufRunes = []int64{'a', '\n', 0x2039, 0x203a, 0xd7, 0xe9, 0x1f6d1, 0xfffd}
 var bufRunesInvalid = []int64{-1, 0xd800, 0xdfff, 0x110000, -2147483648, 2147483647}
